@@ -27,6 +27,12 @@ THEOREMS = [
     "PorepyVerif.C32.tn_projection_det",
     "PorepyVerif.C32.tn3_tangents_orthogonal",
     "PorepyVerif.C32.tn2_projection_orthonormal",
+    "PorepyVerif.C32.sin_cos_arccos",
+    "PorepyVerif.C32.rotation_matrix_real_eq_rodrigues",
+    "PorepyVerif.C32.gram_schmidt_orthonormal",
+    "PorepyVerif.C32.gram_schmidt_orthonormal_real",
+    "PorepyVerif.C32.force_point_collinearity_spec",
+    "PorepyVerif.C32.force_point_collinearity_real",
 ]
 LEAN_MODULES = ["PorepyVerif.C32.Props"]
 AUDIT = "PorepyVerif/C32/Audit.lean"
@@ -40,11 +46,14 @@ RULE = ("six kinds of cases. rot: rotation_matrix(a, vect) for rational points (
         "large offsets, tiny scale, nearly horizontal, axis-aligned, symmetric = argmax ties) plus malformed ones (<3 points, "
         "collinear, non-planar). line: collinear point sets (2-6 points, along z / -z / x / generic, symmetric) plus coincident "
         "points. tn: TangentialNormalProjection for 1-5 normals in 2-D / 3-D (random, small integers with ties in |n_i|, +-axes, "
-        "nearly axis-aligned, scaled), with num=None and num=k. grid: map_grid on 1-D / 2-D Cartesian grids rotated into a "
-        "rational plane / line. Non-trivial = everything except exact axis-aligned identity cases; distinct = distinct inputs.")
+        "nearly axis-aligned with off-axis norm log-uniform in 1e-9..1e-2 (a quarter of the normals), scaled), with num=None and num=k. grid: map_grid on 1-D / 2-D Cartesian grids rotated into a "
+        "rational plane / line. fpc: force_point_collinearity on 2-7 exactly or nearly collinear points (noise 1e-10..1e-2, "
+        "first point at an extremum or inside, shuffled, duplicates). Non-trivial = everything except exact axis-aligned identity cases; distinct = distinct inputs.")
 TRUSTED = [
-    "modelled, not verified: x/|x| (square roots), arccos/sin/cos of the rotation angle (the theorems take unit vectors and "
-    "(sin a, cos a) with s^2+c^2=1 as hypotheses; the Lean driver normalises with a 30-digit rational square root), "
+    "modelled, not verified in the executable (rational) model: x/|x| (square roots) and arccos/sin/cos of the rotation angle: "
+    "the rational theorems take unit vectors and (sin a, cos a) with s^2+c^2=1 as hypotheses and the Lean driver normalises with "
+    "a 30-digit rational square root; the real-number theorems rotation_matrix_real_eq_rodrigues (Real.sqrt, arccos, sin, cos as "
+    "coded), gram_schmidt_orthonormal(_real) and force_point_collinearity_real close that gap on the proof side, "
     "np.linalg.inv (modelled as the exact Cramer inverse), numpy argmax on values that tie up to rounding (model reports ties; "
     "either sign of the computed normal / tangent is then accepted), scipy block-diagonal assembly (modelled on dense rows), "
     "binary64 rounding (comparison with tolerance 1e-9)",
@@ -57,7 +66,9 @@ EXPLANATION = ("CORE: the rotation of project_plane_matrix/project_line_matrix i
                "between unit vectors; theorems: orthogonal, det 1, maps n to ref (n || ref read as +-ref for the identity "
                "fallback), distances preserved, last coordinate constant on planes, computed normals/tangents orthogonal to "
                "the set, tangential-normal blocks orthonormal (2-D determinant is the sign fixed by the code's documented "
-               "tangent convention). Correspondence compares all matrices, normals and mapped points with tolerance 1e-9.")
+               "tangent convention); over the reals: rotation_matrix(arccos(n.r), n x r) as coded equals the rational Rodrigues matrix, "
+               "Gram-Schmidt of the 3-D basis with the square roots inside is orthonormal, force_point_collinearity keeps distances to "
+               "the first point and the order along the line. Correspondence compares all matrices, normals and mapped points with tolerance 1e-9.")
 ASSUMPTIONS = [
     "the reference vector handed to project_plane_matrix / project_line_matrix is a unit vector (the code does not normalise it)",
     "'unit determinant' of a 2-D tangential-normal block is read as |det| = 1: the code deliberately orients the tangent "
@@ -281,7 +292,7 @@ def _gen_tn(rng):
     nv = rng.randint(1, 5)
     normals = []
     for _ in range(nv):
-        cls = rng.choice(["rand", "rand", "int", "int", "axis", "nearaxis", "scaled"])
+        cls = rng.choice(["rand", "rand", "int", "int", "axis", "nearaxis", "nearaxis", "scaled"])
         if cls == "rand":
             v = _rand_float_vec(rng)[:dim]
         elif cls == "int":
@@ -293,8 +304,17 @@ def _gen_tn(rng):
             v = [0.0] * dim
             v[rng.randrange(dim)] = rng.choice([1.0, -1.0, 2.5, -0.125])
         elif cls == "nearaxis":
-            v = [10 ** rng.uniform(-13, -5) * rng.choice([1, -1, 0]) for _ in range(dim)]
-            v[rng.randrange(dim)] = rng.choice([1.0, -1.0])
+            # off-axis part of norm 1e-9 ... 1e-2 (log-uniform) in a random direction of the other coordinates
+            off = 10 ** rng.uniform(-9, -2)
+            i = rng.randrange(dim)
+            u = [rng.choice([rng.gauss(0, 1), rng.gauss(0, 1), 0.0]) for _ in range(dim)]
+            u[i] = 0.0
+            lu = math.sqrt(sum(x * x for x in u))
+            if lu == 0:
+                u[(i + 1) % dim], lu = 1.0, 1.0
+            sc = rng.choice([1.0, 1.0, 3.0, 1e-3])
+            v = [off * x / lu * sc for x in u]
+            v[i] = rng.choice([1.0, -1.0]) * sc
         else:
             s = 10 ** rng.uniform(-6, 6)
             v = [x * s for x in _rand_float_vec(rng)[:dim]]
@@ -332,9 +352,30 @@ def _gen_grid(rng):
     return {"kind": "grid", "dim": dim, "nx": nx, "phys": phys, "M": M, "shift": shift, "cls": cls}
 
 
+def _gen_fpc(rng):
+    cls = rng.choice(["exact", "exact", "noisy", "noisy", "first-inside", "two"])
+    d = [float(x) for x in _unit_rational(rng)] if rng.random() < 0.6 else _rand_float_vec(rng)
+    o = [float(_q(rng)) * rng.choice([0, 1, 100]) for _ in range(3)]
+    k = 2 if cls == "two" else rng.randint(3, 7)
+    while True:
+        lam = sorted(rng.randint(0, 12) / rng.choice([1, 2, 4]) for _ in range(k))
+        if cls == "first-inside":
+            j = rng.randrange(1, k)
+            lam[0], lam[j] = lam[j], lam[0]
+        dist = sorted(set(abs(x - lam[0]) for x in lam))
+        if dist[-1] > 0.4 and (len(dist) < 2 or dist[-1] - dist[-2] > 1e-3):
+            break
+    if rng.random() < 0.5:
+        lam[1:] = rng.sample(lam[1:], len(lam) - 1)
+    noise = 0.0 if cls in ("exact", "two") else 10 ** rng.uniform(-10, -2)
+    pts = [[o[i] + l * d[i] + (noise * rng.uniform(-1, 1) if n else 0.0) for i in range(3)] for n, l in enumerate(lam)]
+    return {"kind": "fpc", "pts": pts, "cls": cls, "noise": noise}
+
+
 def gen_case(rng, tier):
-    kind = rng.choices(["rot", "dir", "plane", "line", "tn", "grid"], weights=[2, 6, 5, 3, 4, 1.5])[0]
-    return {"rot": _gen_rot, "dir": _gen_dir, "plane": _gen_plane, "line": _gen_line, "tn": _gen_tn, "grid": _gen_grid}[kind](rng)
+    kind = rng.choices(["rot", "dir", "plane", "line", "tn", "grid", "fpc"], weights=[2, 6, 5, 3, 5, 1.5, 1.5])[0]
+    return {"rot": _gen_rot, "dir": _gen_dir, "plane": _gen_plane, "line": _gen_line, "tn": _gen_tn, "grid": _gen_grid,
+            "fpc": _gen_fpc}[kind](rng)
 
 
 # ----------------------------------------------------------------------------- the real code
@@ -396,6 +437,8 @@ def _raw(case):
         return {"tangent": _call(lambda: mg.compute_tangent(pts)),
                 "R": _call(lambda: mg.project_line_matrix(pts, reference=_ref(case))),
                 "normals": _call(lambda: mg.compute_normals_1d(pts))}
+    if k == "fpc":
+        return {"out": _call(lambda: mg.force_point_collinearity(_pts(case)))}
     if k == "tn":
         import porepy as pp
         nrm = np.array(case["normals"], dtype=float).T
@@ -443,6 +486,8 @@ def impl_run(case):
         out["mapped"] = _lst((r["R"] @ _pts(case)).T)
     if k == "line" and not _is_err(r["normals"]):
         out["normals"] = _lst(np.asarray(r["normals"]).T)
+    if k == "fpc" and not _is_err(r["out"]):
+        out["out"] = _lst(np.asarray(r["out"]).T)
     if k == "tn":
         out.pop("normals_attr", None)
     if k == "grid":
@@ -468,6 +513,8 @@ def model_ops(case):
         return [{"op": "plane", "pts": [_fr(p) for p in case["pts"]], "tol": frac(case["tol"]), "ref": ref, "check_planar": case["check_planar"]}]
     if k == "line":
         return [{"op": "line", "pts": [_fr(p) for p in case["pts"]], "ref": ref}]
+    if k == "fpc":
+        return [{"op": "fpc", "pts": [_fr(p) for p in case["pts"]]}]
     if k == "tn":
         return [{"op": "tn", "dim": case["dim"], "normals": [_fr(v) for v in case["normals"]], "num": case["num"]}]
     if k == "grid":
@@ -585,6 +632,15 @@ def compare(impl, model, case):
                     continue
             return None
         return msg
+    if k == "fpc":
+        if _is_err(impl["out"]):
+            return f"force_point_collinearity raised {impl['out']}"
+        P = np.array(case["pts"], dtype=float)
+        scale = 1.0 + float(np.abs(P).max())
+        ext = float(np.linalg.norm(P - P[0], axis=1).max())
+        d = _maxdiff(impl["out"], model["out"])
+        # the relative distances are quotients of lengths measured from the first point
+        return None if d <= (TOL + 50 * 2.2e-16 * scale / ext) * scale else f"force_point_collinearity differs from the model by {d:.3g}"
     if k == "tn":
         for key in ("full", "tangential", "normal"):
             d = _maxdiff(impl[key], model[key])
@@ -757,6 +813,30 @@ def oracle(case):
         G = nn.T @ nn
         if nn.shape != (3, 2) or float(np.abs(G - np.eye(2)).max()) > TOL or float(np.abs(t @ nn).max()) > TOL:
             return {"what": f"compute_normals_1d {nn.T.tolist()} is not an orthonormal pair orthogonal to the tangent {t.tolist()}", "key": "line:normals-1d-not-orthonormal"}
+        return None
+    if k == "fpc":
+        Q = r["out"]
+        if _is_err(Q):
+            return {"what": f"force_point_collinearity raised {Q}", "key": "fpc:raised"}
+        P, Q = _pts(case), np.asarray(Q, dtype=float)
+        scale = 1.0 + float(np.abs(P).max())
+        if Q.shape != P.shape or not np.all(np.isfinite(Q)):
+            return {"what": "force_point_collinearity: wrong shape or non-finite output", "key": "fpc:shape"}
+        dp, dq = np.linalg.norm(P - P[:, [0]], axis=0), np.linalg.norm(Q - Q[:, [0]], axis=0)
+        e = int(np.argmax(dp))
+        tol = TOL * scale
+        if np.abs(Q[:, 0] - P[:, 0]).max() > tol or np.abs(Q[:, e] - P[:, e]).max() > tol:
+            return {"what": "force_point_collinearity moves the first point or the end point", "key": "fpc:end-points-moved"}
+        c = np.cross((Q - Q[:, [0]]).T, Q[:, e] - Q[:, 0])
+        if float(np.abs(c).max()) > tol * (1.0 + dp[e]):
+            return {"what": "force_point_collinearity: output points are not on the line through the end points", "key": "fpc:not-collinear"}
+        if float(np.abs(dp - dq).max()) > tol:
+            return {"what": f"force_point_collinearity changes the distance to the first point: {dp.tolist()} -> {dq.tolist()}", "key": "fpc:distance-changed"}
+        t = (Q - Q[:, [0]]).T @ (Q[:, e] - Q[:, 0]) / dp[e]
+        if float(np.abs(t - dp).max()) > tol:  # same side of the first point as the end point, same order along the line
+            return {"what": "force_point_collinearity does not keep the order of the points along the line", "key": "fpc:order-changed"}
+        if case["cls"] in ("exact", "two") and float(np.abs(Q - P).max()) > tol:
+            return {"what": "force_point_collinearity moves points that are collinear already", "key": "fpc:collinear-moved"}
         return None
     if k == "tn":
         if _is_err(r):
